@@ -35,6 +35,10 @@ func (m *Multi) ClearLoaders() {
 // Open will open the file passed by trying all loaders in succession.
 func (m *Multi) Open(name string) (io.ReadCloser, error) {
 	for _, loader := range m.loaders {
+		if !loader.Exists(name) {
+			// a loader may be able to open things that are not templates (e.g. directories)
+			continue
+		}
 		if f, err := loader.Open(name); err == nil {
 			return f, nil
 		}
